@@ -330,6 +330,17 @@ pub fn lk8(f: &[&str]) -> String {
     if got.is_empty() { "-".to_owned() } else { hex(&got) }
 }
 
+/// `tas <never|ansi> <hex/hex/...>`: `anstream::_macros::to_adapted_string` (what the print macros use
+/// under test) with the global choice fixed; fragments are handed over by a Display impl one at a time
+pub fn tas(f: &[&str]) -> String {
+    let choice = if f[0] == "never" { anstream::ColorChoice::Never } else { anstream::ColorChoice::AlwaysAnsi };
+    let frags: Vec<String> = f[1].split('/').map(|h| String::from_utf8(unhex(h)).expect("utf8 fragment")).collect();
+    anstream::ColorChoice::write_global(choice);
+    let s = anstream::_macros::to_adapted_string(&Frags(frags), &Vec::<u8>::new());
+    anstream::ColorChoice::write_global(anstream::ColorChoice::Auto);
+    if s.is_empty() { "-".to_owned() } else { hex(s.as_bytes()) }
+}
+
 pub fn dispatch(kind: &str, f: &[&str]) -> Option<String> {
     Some(match kind {
         "strm" => strm(f),
@@ -337,6 +348,7 @@ pub fn dispatch(kind: &str, f: &[&str]) -> Option<String> {
         "drvn" => drv(f, true),
         "drvv" => drvv(f),
         "lk8" => lk8(f),
+        "tas" => tas(f),
         _ => return None,
     })
 }
